@@ -31,7 +31,7 @@ func (s scenario) String() string {
 }
 
 var causes = []string{"disconnect", "peer-eof", "corrupt-frame", "second-connect", "connack-from-client", "suback-from-client", "pingresp-from-client", "oversized", "keepalive-expiry", "takeover-clean", "takeover-unclean", "backend-close", "token-timeout", "backend-publish-fails", "backend-subscribe-fails", "auth-rejected", "setup-fails", "connack-send-fails-before", "connack-send-fails-after"}
-var states = []string{"idle", "inbound-q1-done", "inbound-q2-open", "outbound-unacked", "blocked-on-token"}
+var states = []string{"idle", "inbound-q1-done", "inbound-q2-open", "outbound-unacked", "blocked-on-token", "outbound-traffic-flowing"}
 
 func applicable(s scenario) bool {
 	switch s.Cause {
@@ -39,6 +39,10 @@ func applicable(s scenario) bool {
 		return s.State == "idle"
 	case "token-timeout":
 		return s.State == "blocked-on-token"
+	}
+	if s.State == "outbound-traffic-flowing" {
+		// a silent client the broker keeps forwarding QoS 0 traffic to: only keep-alive can end it
+		return s.Cause == "keepalive-expiry"
 	}
 	if s.State == "blocked-on-token" {
 		// the processor does not read while it waits for a token
@@ -179,6 +183,26 @@ func run(r *h.Run, sc scenario) {
 				r.Inconclusive("victim did not receive the outbound message")
 				return
 			}
+		case "outbound-traffic-flowing":
+			_ = v.Send(&packet.Subscribe{ID: 7, Subscriptions: []packet.Subscription{{Topic: "busy/#", QOS: 0}}})
+			if _, err := bh.AwaitAck(v, packet.SUBACK, 7); err != nil {
+				r.Inconclusive("victim SUBACK")
+				return
+			}
+			stopFlow := make(chan struct{})
+			defer close(stopFlow)
+			go func() {
+				for i := 0; ; i++ {
+					select {
+					case <-stopFlow:
+						return
+					case <-time.After(8 * time.Millisecond):
+					}
+					if helper.Send(&packet.Publish{Message: packet.Message{Topic: "busy/x", Payload: []byte("tick")}}) != nil {
+						return
+					}
+				}
+			}()
 		case "blocked-on-token":
 			_ = v.Send(&packet.Publish{ID: 6, Message: packet.Message{Topic: "other/x", QOS: 2, Payload: []byte("x")}})
 			if _, err := bh.AwaitAck(v, packet.PUBREC, 6); err != nil {
@@ -244,7 +268,11 @@ func run(r *h.Run, sc scenario) {
 	}
 	// ---- wait for the victim's broker-side client to be fully closed
 	if !b.WaitClosed("victim", bh.Watchdog) {
-		fail("victim-not-closed", "the victim's broker-side client never reached Closed()")
+		key := "victim-not-closed"
+		if sc.State == "outbound-traffic-flowing" {
+			key = "keepalive-not-enforced-while-traffic-flows"
+		}
+		fail(key, "the victim's broker-side client never reached Closed() (keep-alive 40 ms, silent for 20 s)")
 		return
 	}
 	ci := b.ClientOf("victim")
